@@ -17,3 +17,7 @@ mod c12;
 mod c13;
 #[cfg(kani)]
 mod c15;
+#[cfg(kani)]
+mod c18;
+#[cfg(kani)]
+mod c19;
